@@ -35,6 +35,8 @@ func c10(r *core.Run) {
 	r.Rule("D1", "model diff: the delete action is stored exactly on the not-present edge of the lookup in the new map, a key is reported only where it is new or Value.Equal is false, and the resulting map is what ChangeEvent receives", 3)
 
 	c11CacheCoherence(r, "B1", "store/badgerstore")
+	r.Rule("G2", "events only for committed changes (shared with C11.C1): the badgerstore mutations call their change listeners after the transaction returned successfully, never inside the transaction closure; the store handler turns every notification into events, so a notification sent before a commit that then fails (conflict) publishes events for a value that is not stored - and a retried update publishes them twice", 3)
+	c11FanoutAfterCommit(r, "G2", "store/badgerstore")
 	r.Rule("P1", "events are addressed to the registered resource (shared with C06.R11): the store handler learns its pattern from OnRegister, which for handlers added before the mux is attached comes from the registration-time traversal of the trie; that traversal must rebind the mount index at mount points like the matcher does, otherwise a handler below a nested mount is told a pattern with its placeholder on the wrong token, IDToRID yields an id no handler matches, and every change event for the resource is dropped", 2)
 	if ro := resolveMuxRolesFor(r, "P1"); ro != nil {
 		c06MountAware(r, "P1", ro)
@@ -353,6 +355,72 @@ func c10(r *core.Run) {
 	r.Check(ok, "T2", core.FuncName(chg), "change-transforms-before", posOf(p, at), "the before value is transformed like the served value", "the change handler diffs the untransformed before value against what get serves")
 	ok, at = hasTransform(chg, after)
 	r.Check(ok, "T2", core.FuncName(chg), "change-transforms-after", posOf(p, at), "the after value is transformed like the served value", "the change handler diffs the untransformed after value against what get serves")
+
+	// a value the transformer refuses is a value get reports as missing: the change handler goes on
+	// with that side missing (so hiding announces delete, unhiding announces create); it does not
+	// give up on the change
+	{
+		n := 0
+		for _, c := range helperCalls(p, chg) {
+			if !c.Common().IsInvoke() || c.Common().Method.Name() != "Transform" || c.Value() == nil || c.Value().Referrers() == nil {
+				continue
+			}
+			for _, rf := range *c.Value().Referrers() {
+				ex, ok := rf.(*ssa.Extract)
+				if !ok || types.TypeString(ex.Type(), nil) != "error" || ex.Referrers() == nil {
+					continue
+				}
+				for _, r2 := range *ex.Referrers() {
+					bo, ok := r2.(*ssa.BinOp)
+					if !ok || bo.Referrers() == nil {
+						continue
+					}
+					for _, r3 := range *bo.Referrers() {
+						iff, ok := r3.(*ssa.If)
+						if !ok {
+							continue
+						}
+						ci := core.Cond(iff.Cond)
+						if ci.Kind != "nilcmp" {
+							continue
+						}
+						errSucc := 0
+						if (ci.Op == token.EQL) != ci.Negate {
+							errSucc = 1
+						}
+						n++
+						fn := iff.Parent()
+						bad := ""
+						for _, ret := range core.Returns(fn) {
+							onErr := false
+							for _, ed := range dominatingEdges(ret) {
+								if ed.If == iff && ed.Succ == errSucc {
+									onErr = true
+								}
+							}
+							if !onErr {
+								continue
+							}
+							announced := false
+							for _, ec := range core.Calls(fn) {
+								if ec.Common().IsInvoke() && strings.HasSuffix(ec.Common().Method.Name(), "Event") && core.Dominates(ec, ret) {
+									for _, ed := range dominatingEdges(ec) {
+										if ed.If == iff && ed.Succ == errSucc {
+											announced = true
+										}
+									}
+								}
+							}
+							if !announced {
+								bad = p.InstrPos(ret)
+							}
+						}
+						r.Check(bad == "", "T2", core.FuncName(fn), fmt.Sprintf("transform-error-makes-the-side-missing#%d", n), p.InstrPos(iff), "on a transform error the handler goes on with that side missing", "on a transform error the change handler returns (at "+bad+") without announcing anything: a value that the transformer starts (or stops) refusing is reported missing (or present) by get, but no delete (create) event is sent")
+					}
+				}
+			}
+		}
+	}
 
 	// the default is served as it is: it must never be fed to Transform (get serves it untransformed)
 	{
